@@ -317,9 +317,49 @@ func (in *Interp) jsonUnmarshal(tree *jsonTree, t types.Type, p *Value, top bool
 		}
 		return firstErr
 	case *types.Interface:
-		in.unsupported("json.Unmarshal into interface")
+		if u.NumMethods() != 0 {
+			in.unsupported("json.Unmarshal into non-empty interface")
+		}
+		*p = in.jsonGeneric(tree)
+		return nil
 	}
 	in.unsupported("json.Unmarshal into " + t.String())
+	return nil
+}
+
+// jsonGeneric decodes into interface{}: objects become map[string]interface{},
+// arrays []interface{}, numbers float64, as encoding/json documents.
+func (in *Interp) jsonGeneric(tree *jsonTree) Value {
+	empty := types.NewInterfaceType(nil, nil)
+	switch tree.kind {
+	case "null":
+		return Iface{}
+	case "num":
+		x := tree.num
+		if x.Sort.K != term.KFloat {
+			x = term.I2F(term.F64, x)
+		} else {
+			x = term.FConv(term.F64, x)
+		}
+		return Iface{T: types.Typ[types.Float64], V: x}
+	case "str":
+		return Iface{T: types.Typ[types.String], V: tree.str}
+	case "bool":
+		return Iface{T: types.Typ[types.Bool], V: tree.b}
+	case "arr":
+		s := make([]Value, len(tree.arr))
+		for i, e := range tree.arr {
+			s[i] = in.jsonGeneric(e)
+		}
+		return Iface{T: types.NewSlice(empty), V: s}
+	case "obj":
+		m := newMap()
+		for i, k := range tree.keys {
+			m.set(in.mapKey(k), k, in.jsonGeneric(tree.vals[i]))
+		}
+		return Iface{T: types.NewMap(types.Typ[types.String], empty), V: m}
+	}
+	in.unsupported("json: tree kind " + tree.kind)
 	return nil
 }
 
